@@ -1,3 +1,4 @@
+import GPy.C15.Gen
 import GPy.C07.Gen
 
 /-- `gpymodel <property> <tier> <seed>`: print the generated cases of one property. -/
@@ -7,5 +8,6 @@ def main (args : List String) : IO UInt32 := do
     let seed := seed.toNat!
     match prop with
     | "C07" => GPy.C07.genMain tier seed; return 0
+    | "C15" => GPy.C15.genMain tier seed; return 0
     | _ => IO.eprintln s!"unknown property {prop}"; return 2
   | _ => IO.eprintln "usage: gpymodel <Cxx> <quick|thorough> <seed>"; return 2
